@@ -1,10 +1,10 @@
 (* ExprParse.v — Gallina model of pkg/sql/parser/expressions.go (+ parseFunctionCall of window.go),
    written function by function over the converted token list, with the cursor and the depth counter.
 
-   Cursor: the remaining tokens; [cur] = head ("currentToken"), [advance] = tail, [peek] = second.  The Go
-   cursor keeps the last token as currentToken when it runs past the end; for token lists that end with the
-   EOF token (every list the tokenizer produces) that is exactly [cur [] = EOF ""].  The tie feeds only such
-   lists.  The depth counter is restored by `defer` on every path, so it is a parameter, not state.
+   Cursor: the remaining tokens; [cur] = head ("currentToken"), [advance] = tail, [peek] = second.  Past the
+   end the Go cursor reads as the EOF token (since /repo 481ea7f for every slice; before that only for token
+   lists ending with EOF, which is every list the tokenizer produces): [cur [] = EOF ""].  The tie feeds only
+   tokenizer-produced lists.  The depth counter is restored by `defer` on every path, so it is a parameter, not state.
 
    Branches of the Go code that are not modelled return [Unmodelled] (sub-queries, EXISTS, ANY/ALL, ARRAY,
    subscripts, MATCH..AGAINST, ORDER BY / WITHIN GROUP / FILTER / OVER inside a call): the correspondence
